@@ -14,4 +14,15 @@ CHECKS = {
              'lemma M1 (induction on history length, not mechanised). Assumes default join/init/empty, a finite underlying '
              'iterator that raises only StopIteration, pure callbacks.',
         technique='contract-based deductive verification (VCs from the real AST, z3+cvc5) + bounded BFS stand-in'),
+    'C19': dict(
+        level='proof',
+        text='categorize is verified for a symbolic code point (all 1,114,112 at once) against the real category table; every '
+             'tokenizer, next_token (with termination) and tokenize are verified against contracts saying each token is a '
+             'non-empty slice of the input at its recorded offset, tokens are in order, and the characters between tokens are '
+             'Ignored/Invalid only. Exhaustive short strings and all single code points are the bounded cross-check.',
+        design_ref='5.3, 6 (C19)',
+        note='Trusted: VC generator, z3/cvc5, Buffer representation map, definitional instances of the jointext and counting '
+             'folds, lemma M4 (slices with ignorable gaps concatenate to the input minus those characters; not mechanised).',
+        technique='contract-based deductive verification (VCs from the real AST, z3+cvc5) + bounded exhaustive stand-in'),
 }
+SOURCE_COMMITS = []
